@@ -4,7 +4,7 @@ pub mod c12;
 pub mod c17;
 pub mod c18;
 pub mod c20;
-pub mod datau;
+pub use vcore::datau;
 pub mod pj;
 
 use vcore::evid::Tier;
